@@ -343,6 +343,9 @@ fn native_case(k: usize, hexmsg: &str) -> String {
         35 => one!(Option<&[u8]>),
         36 => two!(&[u8], u8),
         37 => one!(R3),
+        38 => one!(std::time::Duration),
+        39 => one!((u8, String, bool)),
+        40 => one!(std::collections::HashMap<u8, u8>),
         _ => "bad".to_string(),
     }
 }
